@@ -287,7 +287,9 @@ func genAppGuards(repo string) (out string) {
 		}
 	}
 	b.WriteString("]\n\n")
-	b.WriteString(lockFacts(parseDir(filepath.Join(repo, "router"))))
+	routerPkg := parseDir(filepath.Join(repo, "router"))
+	b.WriteString(lockFacts(routerPkg))
+	b.WriteString(phaseFacts(routerPkg))
 	b.WriteString("end Rivaas.Gen.AppGuards\n")
 	if n == 0 {
 		fatalf(token.NoPos, "appguards: no app-layer methods found")
@@ -310,6 +312,7 @@ func lockFacts(p *pkg) string {
 		relevant := false
 		var visit func(n ast.Node, deferred bool)
 		depth := 0
+		pendingDefers := map[int][][2]string{}
 		active := map[*ast.FuncDecl]bool{d: true}
 		// callee: a method of the same receiver type called on the receiver itself (r.helper(…))
 		recvT, recvN := "", recvName(d)
@@ -352,16 +355,25 @@ func lockFacts(p *pkg) string {
 						}
 						if op != "" {
 							if pth := selPath(sel.X); len(pth) >= 2 {
-								if deferred {
-									op = "defer-" + op
+								switch {
+								case deferred && depth > 0:
+									// deferred inside an inlined helper: runs when the helper returns
+									pendingDefers[depth] = append(pendingDefers[depth], [2]string{op, pth[len(pth)-1]})
+								case deferred:
+									evs = append(evs, [2]string{"defer-" + op, pth[len(pth)-1]})
+								default:
+									evs = append(evs, [2]string{op, pth[len(pth)-1]})
 								}
-								evs = append(evs, [2]string{op, pth[len(pth)-1]})
 							}
 						} else if cd := callee(sel.X, sel.Sel.Name); cd != nil && !active[cd] && depth < 3 && !deferred {
-							// a helper of the same package: its lock operations happen here
+							// a helper of the same receiver: its lock operations happen here
 							active[cd] = true
 							depth++
 							visit(cd.Body, false)
+							for i := len(pendingDefers[depth]) - 1; i >= 0; i-- {
+								evs = append(evs, pendingDefers[depth][i])
+							}
+							delete(pendingDefers, depth)
 							depth--
 							delete(active, cd)
 						}
@@ -397,6 +409,148 @@ func lockFacts(p *pkg) string {
 			q = append(q, "("+leanStr(e[0])+", "+leanStr(e[1])+")")
 		}
 		fmt.Fprintf(&b, "\n  (%s, [%s])", leanStr(f.name), strings.Join(q, ", "))
+	}
+	b.WriteString("]\n\n")
+	return b.String()
+}
+
+// phaseFacts: the order of the phase-relevant operations inside the functions the C12 phase model mirrors step by step:
+// lock operations on mutex fields, stores / loads of the flags serving / frozen / warmedUp, verifYield points, calls of
+// Freeze / Warmup / doWarmup / RegisterRoute / CompileAllRoutes / enqueueRoute / Once.Do, panic, writes of pendingRoutes —
+// in source order, function literals entered (the bodies handed to Once.Do).
+func phaseFacts(p *pkg) string {
+	fns := [][2]string{{"Router", "Freeze"}, {"Router", "Warmup"}, {"Router", "doWarmup"}, {"Router", "ServeHTTP"},
+		{"Router", "enqueueRoute"}, {"Router", "addRouteInternal"}}
+	flags := map[string]bool{"serving": true, "frozen": true, "warmedUp": true}
+	calls := map[string]bool{"Freeze": true, "Warmup": true, "doWarmup": true, "RegisterRoute": true, "CompileAllRoutes": true, "enqueueRoute": true, "Do": true}
+	var b strings.Builder
+	b.WriteString("/-- phase-relevant operations of the functions the phase model mirrors, in source order -/\ndef phaseEvents : List (String × List (String × String)) := [")
+	for i, fn := range fns {
+		d := p.fn(fn[0], fn[1])
+		var evs [][2]string
+		add := func(k, a string) { evs = append(evs, [2]string{k, a}) }
+		recvN := recvName(d)
+		depth := 0
+		pendingDefers := map[int][][2]string{}
+		active := map[string]bool{fn[1]: true}
+		var visit func(n ast.Node, deferred bool)
+		visit = func(n ast.Node, deferred bool) {
+			ast.Inspect(n, func(m ast.Node) bool {
+				switch v := m.(type) {
+				case *ast.DeferStmt:
+					visit(v.Call, true)
+					return false
+				case *ast.ReturnStmt:
+					for _, r := range v.Results {
+						visit(r, false)
+					}
+					if depth == 0 { // a return inside an inlined helper only leaves the helper
+						add("return", "")
+					}
+					return false
+				case *ast.AssignStmt:
+					for _, r := range v.Rhs {
+						visit(r, false)
+					}
+					for _, l := range v.Lhs {
+						if pth := selPath(l); len(pth) >= 2 {
+							switch last := pth[len(pth)-1]; {
+							case flags[last]:
+								add("store", last)
+							case last == "pendingRoutes":
+								add("write", last)
+							}
+						}
+					}
+					return false
+				case *ast.SelectorExpr:
+					if pth := selPath(v); len(pth) >= 2 && pth[len(pth)-1] == "warmedUp" {
+						add("load", "warmedUp") // a plain field read (under pendingRoutesMu)
+					}
+					return true
+				case *ast.CallExpr:
+					if id, ok := v.Fun.(*ast.Ident); ok {
+						switch id.Name {
+						case "panic":
+							add("panic", "")
+						case "verifYield":
+							if len(v.Args) == 1 {
+								if sv, ok := strLit(v.Args[0]); ok {
+									add("yield", sv)
+								}
+							}
+						}
+						for _, a := range v.Args {
+							visit(a, false)
+						}
+						return false
+					}
+					sel, ok := v.Fun.(*ast.SelectorExpr)
+					if !ok {
+						return true
+					}
+					pth := selPath(sel.X)
+					name := sel.Sel.Name
+					op := map[string]string{"Lock": "lock", "RLock": "rlock", "Unlock": "unlock", "RUnlock": "runlock"}[name]
+					switch {
+					case op != "" && len(pth) >= 2:
+						switch {
+						case deferred && depth > 0:
+							pendingDefers[depth] = append(pendingDefers[depth], [2]string{op, pth[len(pth)-1]})
+						case deferred:
+							add("defer-"+op, pth[len(pth)-1])
+						default:
+							add(op, pth[len(pth)-1])
+						}
+					case (name == "Store" || name == "Load") && len(pth) >= 2 && flags[pth[len(pth)-1]]:
+						add(strings.ToLower(name), pth[len(pth)-1])
+					case calls[name] && len(pth) >= 1:
+						who := name
+						if len(pth) >= 2 {
+							who = pth[len(pth)-1] + "." + name
+						}
+						add("call", who)
+					default:
+						// an unlisted helper of the same receiver (r.helper(…)): what it does happens here
+						if id, ok := sel.X.(*ast.Ident); ok && id.Name == recvN && !deferred && depth < 2 && !active[name] {
+							if hd := p.methods[fn[0]][name]; hd != nil && recvName(hd) != "" {
+								for _, a := range v.Args {
+									visit(a, false)
+								}
+								active[name] = true
+								depth++
+								saved := recvN
+								recvN = recvName(hd)
+								visit(hd.Body, false)
+								for i := len(pendingDefers[depth]) - 1; i >= 0; i-- {
+									evs = append(evs, pendingDefers[depth][i])
+								}
+								delete(pendingDefers, depth)
+								recvN = saved
+								depth--
+								delete(active, name)
+								return false
+							}
+						}
+						visit(sel.X, false)
+					}
+					for _, a := range v.Args {
+						visit(a, false)
+					}
+					return false
+				}
+				return true
+			})
+		}
+		visit(d.Body, false)
+		if i > 0 {
+			b.WriteString(",")
+		}
+		var q []string
+		for _, e := range evs {
+			q = append(q, "("+leanStr(e[0])+", "+leanStr(e[1])+")")
+		}
+		fmt.Fprintf(&b, "\n  (%s, [%s])", leanStr(fn[0]+"."+fn[1]), strings.Join(q, ", "))
 	}
 	b.WriteString("]\n\n")
 	return b.String()
